@@ -77,7 +77,7 @@ func (op *tagValuesLookup) findTagValueIDsByExpr(expr stmt.Expr) {
 			tagValueIDs = roaring.New()
 		}
 		// save atomic tag filter result
-		op.executeCtx.TagFilterResult[expr.Rewrite()] = &flow.TagFilterResult{
+		op.executeCtx.TagFilterResult[tagFilterKey(expr)] = &flow.TagFilterResult{
 			TagKeyID:    tagKeyID,
 			TagValueIDs: tagValueIDs,
 		}
@@ -108,4 +108,11 @@ func (op *tagValuesLookup) getTagKeyID(tagKey string) (tag.KeyID, error) {
 // Identifier returns identifier value of tag value lookup operator.
 func (op *tagValuesLookup) Identifier() string {
 	return "Tag Value Lookup"
+}
+
+// tagFilterKey returns the key of an atomic tag filter in the tag filter result set.
+// Rewrite() is not unique for it: `k in ('a,b')` and `k in ('a','b')` rewrite to the same text,
+// as `k = '~b'` and `k =~ 'b'` do, then one filter would use the tag value ids of the other.
+func tagFilterKey(expr stmt.Expr) string {
+	return string(stmt.Marshal(expr))
 }
